@@ -170,6 +170,12 @@ func (p *c9prog) step(c *fw.Ctx) {
 		p.obs = append(p.obs, pt.V(n))
 		p.created++
 	})
+	add("repeat-wrapped", func() {
+		n := p.fresh("arr")
+		p.stmts = append(p.stmts, pt.InferDecl{Name: n, X: pt.Bin("*", pt.A(src), pt.N(2))})
+		p.obs = append(p.obs, pt.V(n))
+		p.created++
+	})
 	if T.K != pt.Any {
 		add("wrap-any", func() {
 			n := p.fresh("x")
@@ -214,7 +220,21 @@ func (p *c9prog) step(c *fw.Ctx) {
 			p.created++
 		})
 	}
+	if T.K == pt.Bool {
+		add("err-in-literals", func() {
+			a, m := p.fresh("arr"), p.fresh("mp")
+			p.stmts = append(p.stmts, pt.InferDecl{Name: a, X: pt.A(pt.V("err"))}, pt.InferDecl{Name: m, X: pt.M("k", pt.V("err"))})
+			p.obs = append(p.obs, pt.V(a), pt.V(m))
+			p.created++
+		})
+	}
 	if T.K == pt.Str {
+		add("errmsg-in-literals", func() {
+			a, m := p.fresh("arr"), p.fresh("mp")
+			p.stmts = append(p.stmts, pt.InferDecl{Name: a, X: pt.A(pt.V("errmsg"))}, pt.InferDecl{Name: m, X: pt.M("k", pt.V("errmsg"))})
+			p.obs = append(p.obs, pt.V(a), pt.V(m))
+			p.created++
+		})
 		add("alias-from-errmsg", func() {
 			dst := p.vars[c.Choose(len(p.vars), "dst")]
 			p.stmts = append(p.stmts, pt.Assign{Target: pt.V(dst), X: pt.V("errmsg")})
@@ -239,7 +259,10 @@ func (p *c9prog) step(c *fw.Ctx) {
 	})
 	if p.isComposite() {
 		if T.K == pt.Arr {
-			add("element-store", func() { p.stmts = append(p.stmts, pt.Assign{Target: pt.Index{X: src, I: pt.N(0)}, X: k.elem}); p.updated++ })
+			add("element-store", func() {
+				p.stmts = append(p.stmts, pt.Assign{Target: pt.Index{X: src, I: pt.N(0)}, X: k.elem})
+				p.updated++
+			})
 			if T.Sub.K == pt.Arr {
 				add("nested-element-store", func() {
 					p.stmts = append(p.stmts, pt.Assign{Target: pt.Index{X: pt.Index{X: src, I: pt.N(0)}, I: pt.N(0)}, X: pt.N(5)})
@@ -248,7 +271,10 @@ func (p *c9prog) step(c *fw.Ctx) {
 			}
 		} else {
 			add("field-store", func() { p.stmts = append(p.stmts, pt.Assign{Target: pt.Dot{X: src, Key: "a"}, X: k.elem}); p.updated++ })
-			add("field-insert", func() { p.stmts = append(p.stmts, pt.Assign{Target: pt.Index{X: src, I: pt.S("n")}, X: k.elem}); p.updated++ })
+			add("field-insert", func() {
+				p.stmts = append(p.stmts, pt.Assign{Target: pt.Index{X: src, I: pt.S("n")}, X: k.elem})
+				p.updated++
+			})
 			add("del", func() { p.stmts = append(p.stmts, pt.CallStmt{C: pt.C("del", src, pt.S("a"))}); p.updated++ })
 		}
 	}
